@@ -68,6 +68,15 @@ type W struct{}
 
 func New() W { return W{} }
 `}},
+		// a package vendored inside a vendored package: two vendor elements in its path
+		{Import: "example.com/inner/n", Path: "example.com/app/vendor/example.com/lib/vendor/example.com/inner/n", Files: map[string]string{"n.go": `package n
+
+type N struct{}
+
+func New() N { return N{} }
+
+var Default = New()
+`}},
 		{Import: "example.com/lib/v", Path: "example.com/app/vendor/example.com/lib/v", Files: map[string]string{"v.go": `package v
 
 import "example.com/myvendor/w"
@@ -215,6 +224,13 @@ import "example.com/lib/v"
 
 var vv = v.Make()
 var vw v.Vend
+`},
+	{Name: "vendored-nested", DotFree: true, Src: `package app
+
+import "example.com/inner/n"
+
+var nn = n.New()
+var nd n.N = n.Default
 `},
 	{Name: "vendor-lookalikes", DotFree: true, Src: `package app
 
